@@ -62,6 +62,20 @@ Theorem C07_releases_only_release :
 Proof. exact release_never_presses. Qed.
 Print Assumptions C07_releases_only_release.
 
+(* The same at the level of the held set: for EVERY layout, EVERY history h (so
+   from every reachable state) and EVERY release input or release-all, every key
+   held on the virtual keyboard afterwards was held before - no later release
+   makes a key held again, in particular not a non-modifier after a
+   Disabled/Special mapping fired. *)
+Theorem C07_release_holds_nothing_new :
+  forall (is_action : key -> bool) (L : layout) (h : list input) (i : input),
+    match i with
+    | IEv (Pressed _) => True
+    | _ => forall x, In x (held_all is_action L (h ++ [i])) -> In x (held_all is_action L h)
+    end.
+Proof. exact release_holds_nothing_new. Qed.
+Print Assumptions C07_release_holds_nothing_new.
+
 (* "Modifier" in this property means one of the eight standard modifiers
    (SpecTables.spec_modifier_keys: left/right Shift, Ctrl, Alt, Meta): the
    classification the code uses (is_action_key, regenerated from /repo on every
